@@ -488,14 +488,15 @@ def appendUnit (s : S) (q u : Nat) : S :=
   | some l => (s.setWeak u (s.h.obj l).weak).setItems l ((s.h.obj l).items ++ [u])
   | none => s
 
-/-- `seq._subunits[i] = unit`: `current.parent = None; list[i] = unit; unit.parent = owner` -/
+/-- `seq._subunits[i] = unit`: `list[i] = unit; current.parent = None; unit.parent = owner`
+(the item is stored first, so that a failing assignment touches no parent) -/
 def replaceUnit (s : S) (q i u : Nat) : S :=
   match getF s.h q fSUB with
   | some l =>
     match (s.h.obj l).items[i]? with
     | some cur =>
-      let s1 := s.setWeak cur none
-      let s2 := s1.setItems l ((s1.h.obj l).items.set i u)
+      let s1 := s.setItems l ((s.h.obj l).items.set i u)
+      let s2 := s1.setWeak cur none
       s2.setWeak u (s2.h.obj l).weak
     | none => s
   | none => s
